@@ -68,3 +68,56 @@ package remoting
 //@   requires c.conn != nil && !held(c.writeCloseLock)
 //@   modifies c.closed
 //@   ensures c.closed
+
+// ---------------------------------------------------------------------------------------------
+// C14, sending side. Enqueue writes one envelope to the peer, retrying through the back-off helper; each attempt is
+// the closure Enqueue$1. Decided per call:
+//   * an attempt writes to the connection at most once, and what it writes is exactly the frame it encoded in THIS
+//     attempt, whole (same array, same length): a retry after a failed or partial write starts the frame again on
+//     the new connection, never the remainder of the old one (framing is per connection);
+//   * a failed write drops the connection (the next attempt dials again) and the attempt reports the error;
+//   * Enqueue hands the envelope to HandleFailedRemotingEnvelop (the dead-letter path) exactly when the retry helper
+//     gave up with an error, exactly once, and that very envelope.
+// The back-off helper is verified in internal/utils (at most limit+1 attempts, at least one). Trusted: dialing and
+// handshake (getOrCreateConnection), the event publications.
+//@ func (*Mailbox).getOrCreateConnection
+//@   trusted
+//@   modifies gmap(published)
+//@   ensures result.1 == nil ==> result.0 != nil && result.0.conn != nil && !held(result.0.writeCloseLock)
+//@ func (*Mailbox).onEncodeFailed
+//@   trusted
+//@   modifies gmap(published)
+//@ func (*Mailbox).publishMessageSendFailed
+//@   trusted
+//@   modifies gmap(published)
+//@ func (*Mailbox).publishMessageSent
+//@   trusted
+//@   modifies gmap(published)
+//@ func (*vivid.Error).With
+//@   trusted
+//@   ensures err != nil ==> result != nil && fresh(result)
+//@ func (*Mailbox).Enqueue$1
+//@   ghostvar enc int
+//@   ghostvar flen int
+//@   ghostvar farr int
+//@   ghostvar wrote int
+//@   callspec encodeEnvelopWithLength sets enc = 1, flen = len(result.0), farr = arr(result.0)
+//@   callspec Write requires wrote == 0 && enc == 1 && len(arg1) == flen && arr(arg1) == farr
+//@   callspec Write sets wrote = 1, werr = (result.1 != nil ? 1 : 0)
+//@   ghostvar werr int
+//@   requires m != nil && m.ctx != nil && envelop != nil && messages.regwf()
+//@   requires envSender(envelop) != nil ==> !nilptr(envSender(envelop))
+//@   requires envReceiver(envelop) != nil ==> !nilptr(envReceiver(envelop))
+//@   modifies m.connection, anyold, gmap(published)
+//@   ensures  wrote == 1 && werr == 1 ==> m.connection == nil && result.1 != nil && !result.0
+//@   ensures  result.1 == nil ==> wrote == 1 && werr == 0 && result.0
+//@ func (*Mailbox).Enqueue
+//@   ghostvar tryerr int
+//@   callspec Try sets tryerr = (result.1 != nil ? 1 : 0)
+//@   callspec Try preserves m.envelopHandler, m.backoff
+//@   callspec HandleFailedRemotingEnvelop requires arg0 == envelop && tryerr == 1
+//@   requires m != nil && m.backoff != nil && m.backoff.currentAttempt == 0 && m.envelopHandler != nil && !held(m.connectionLock)
+//@   modifies anyold, gmap(failedremote), ghost(calls_fn)
+//@   ensures  m.backoff.currentAttempt == 0
+//@   ensures  tryerr == 1 ==> gcount(failedremote, 0) == old(gcount(failedremote, 0)) + 1
+//@   ensures  tryerr == 0 ==> gcount(failedremote, 0) == old(gcount(failedremote, 0))
